@@ -1150,6 +1150,25 @@ func (pc *pCtx) p4Mode(s *pSite) {
 		fmt.Sprintf("%d concurrent emission contexts %v with constructor %s", n, names, s.Ctor), pc.pos(s.CtorCall.Pos()))
 }
 
+// p4Dropping: the "eventually safe" constructors drop a notification that arrives while another one is being delivered.
+// No operator of the library is built with them; one that is loses values under concurrent emission (C04) and, for an
+// instrumentation wrapper, changes what the subscriber observes (C19 through the plugin's property).
+func (pc *pCtx) p4Dropping(s *pSite) {
+	dropping := strings.Contains(s.Ctor, "EventuallySafe")
+	if s.Ctor == "NewObservableWithConcurrencyMode" && s.CtorCall != nil && len(s.CtorCall.Call.Args) > 1 {
+		if c, ok := s.CtorCall.Call.Args[1].(*ssa.Const); ok && c.Int64() == 2 {
+			dropping = true
+		}
+	}
+	if strings.HasPrefix(s.Name, "New") && strings.Contains(s.Name, "Observable") {
+		return // the constructors themselves (NewEventuallySafeObservable wraps the context-aware one)
+	}
+	_, declared := pc.annotated(s.Name, "dropping")
+	pc.add([]string{"C04"}, fmt.Sprintf("P4/%s/constructor-does-not-drop", s.Name),
+		"an operator is not built with a constructor that drops the notifications arriving while another one is being delivered (unless the site is declared `dropping`)", !dropping || declared,
+		fmt.Sprintf("built with %s", s.Ctor), pc.pos(s.CtorCall.Pos()))
+}
+
 func (pc *pCtx) p5Sync(s *pSite) {
 	props := []string{"C08"}
 	async := false
